@@ -198,6 +198,19 @@ class GetItem(Contract):
 
 class GetItemSamples(GetItem):
     cls = "Samples"
+    properties = ("C16", "C10", "C02")
+
+    def post(self, I, pre, r):
+        super().post(I, pre, r)
+        snap = pre.ghost["snapshot"]
+        if isinstance(r, Obj) and isinstance(snap.get("log_w"), Arr) and isinstance(r.f.get("log_w"), Arr):
+            # the selection's own ESS: exp(2 LSE(a) - LSE(2a)) [= ESS(a), Lean theorem ess_spec about utils.effective_sample_size] on the max-shifted
+            # log-weights of the *selection* (ESS is shift invariant, Lean lemma ESS_shift) - not the source's ESS, and not another functional
+            want = I.eval_expr("xp.exp(logsumexp(a) * 2 - logsumexp(a * 2))", "utils", {"a": I.eval_expr("lw - xp.max(lw)", "utils", {"lw": r.f["log_w"], "xp": r.f["xp"]}), "xp": r.f["xp"]})
+            got = r.f.get("effective_sample_size", NONE)
+            ok = isinstance(got, Z) and isinstance(want, Z)
+            I.path.prove(to_real(got) == to_real(want) if ok else z3.BoolVal(False),
+                         f"{self.qual}:C16:C02:effective_sample_size of the selection is ESS(log_w of the selection) (exp(2 LSE - LSE(2 .)) on the shifted weights of the selection)")
 
 
 class GetItemSMC(GetItem):
